@@ -438,8 +438,8 @@ impl Monitor for C16 {
         N_DIRECTED
             + match t {
                 Tier::Tiny => 10,
-                Tier::Quick => 900000,
-                Tier::Thorough => 9000000,
+                Tier::Quick => 450000,
+                Tier::Thorough => 4500000,
             }
     }
     fn rule(&self) -> &'static str {
